@@ -190,6 +190,8 @@ class Ctx:
         """One op per line in, exactly one line out per op."""
         if not self.driver_ok:
             return None
+        if not lines:
+            return []
         data = "\n".join(lines) + "\n"
         p = subprocess.run([DRV], input=data, stdout=subprocess.PIPE, stderr=subprocess.PIPE, text=True,
                            timeout=3000)
